@@ -20,6 +20,7 @@ var commands = map[string]func([]string) error{
 	"restrace":  cmdRestRace,
 	"sanitize":  cmdSanitize,
 	"pop3":      cmdPOP3,
+	"pop3tls":   cmdPop3Tls,
 	"naming":    cmdNaming,
 	"wild":      cmdWild,
 	"retention": cmdRetention,
